@@ -379,9 +379,94 @@ func init() {
 					addEval(c, b, &EvalSpec{Tree: t, RC: &RunCfg{Opts: optSubset(mask, false), Costs: c2}, Bind: bind, DoEval: true, Tags: []string{"cost-raised"}})
 				}
 			}
+			nestedSortLaw(c)
 			return []*Batch{b}
 		},
 	})
+}
+
+// nestedSortLaw: the ordering laws on Go's own output, without the model: same-kind and/or groups of distinct variables
+// nested in one another are flattened into ONE node, whose operands must come out as the stable cost-ascending sort of
+// their source order (equal costs keep source order, cheaper first) - whatever order the passes run in.
+func nestedSortLaw(c *RunCtx) {
+	r := c.R
+	for rep := 0; rep < c.N(80, 3000); rep++ {
+		op := pick(r, []string{"and", "or", "&&", "||", "&", "|"})
+		next := 0
+		var leaves []string
+		var build func(d int) *GT
+		build = func(d int) *GT {
+			n := 2 + r.Intn(3)
+			ch := make([]*GT, n)
+			for i := range ch {
+				if d > 0 && r.Intn(3) == 0 {
+					ch[i] = build(d - 1)
+				} else {
+					name := fmt.Sprintf("w%02d", next)
+					next++
+					leaves = append(leaves, name)
+					ch[i] = gvar(name)
+				}
+			}
+			return gop(op, ch...)
+		}
+		t := build(2)
+		if len(leaves) < 3 {
+			continue
+		}
+		costs := map[string]int64{}
+		for _, n := range leaves {
+			if r.Intn(3) != 0 {
+				costs[n] = []int64{-100, 1, 1, 7, 7, 50, 1000}[r.Intn(7)]
+			}
+		}
+		rc := &RunCfg{Opts: optSubset(15, r.Bool()), Costs: costs, VarNames: leaves}
+		bt := rc.Build()
+		e, err, pan := compileSafe(bt.Conf, t.Src())
+		c.ExploreEvals++
+		if err != nil || pan != nil || e == nil {
+			continue
+		}
+		var got []string
+		for _, f := range strings.Fields(strings.NewReplacer("(", " ", ")", " ").Replace(eval.Dump(e))) {
+			if strings.HasPrefix(f, "w") {
+				got = append(got, f)
+			}
+		}
+		cost := func(n string) int64 {
+			if v, ok := costs[n]; ok {
+				return v
+			}
+			return 1 << 20 // every unlisted variable has the same default cost: which one is irrelevant for ties among them...
+		}
+		// ... but not relative to listed ones: compare only within {listed} and within {unlisted}, and the relative order
+		// of two leaves of equal configured cost
+		pos := map[string]int{}
+		for i, n := range got {
+			pos[n] = i
+		}
+		if len(got) != len(leaves) || strings.Count(eval.Dump(e), "(") != 1 {
+			continue // not flattened into one node of leaves (capacity or another shape): nothing to say here
+		}
+		for i := 0; i < len(leaves); i++ {
+			for j := i + 1; j < len(leaves); j++ {
+				a, bb := leaves[i], leaves[j]
+				_, la := costs[a]
+				_, lb := costs[bb]
+				if la != lb {
+					continue
+				}
+				ca, cb := cost(a), cost(bb)
+				bad := (ca == cb && pos[a] > pos[bb]) || (ca < cb && pos[a] > pos[bb]) || (ca > cb && pos[a] < pos[bb])
+				if bad {
+					c.Direct = append(c.Direct, DirectViolation{What: "operands of a flattened and/or are not in stable cost-ascending order of their source positions (equal cost keeps source order, cheaper first)", Sig: "c16-nested-sort",
+						Sample: map[string]interface{}{"source": t.Src(), "costs": costs, "dump": clip(eval.Dump(e), 400), "operand_a": a, "operand_b": bb}})
+					return
+				}
+			}
+		}
+		c.ExploreHist["nested-sort-law"]++
+	}
 }
 
 func randStatelessHeavy(r *Rand) []string {
@@ -425,6 +510,17 @@ func constRichTree(r *Rand) *GT {
 	walk(t)
 	if t.Kind != "op" && t.Kind != "if" {
 		t = gop("c_id", t)
+	}
+	if r.Intn(6) == 0 {
+		// a constant of the configuration that is a plain Go int: constants are used as they are (no normalisation), at
+		// compile time and at run time alike, so it equals itself and no int64 - whichever optimisations are on
+		kg := func() *GT { return &GT{Kind: "const", Val: int(2), Name: "KGOINT"} }
+		other := []*GT{gconst(int64(2)), kg(), gconst(int64(3)), gconst("2")}[r.Intn(4)]
+		cmp := gop([]string{"=", "==", "eq", "!=", "ne"}[r.Intn(5)], kg(), other)
+		if r.Bool() {
+			cmp = gop(cmp.Name, other, kg())
+		}
+		t = gop(pick(r, eqNames), cmp, t)
 	}
 	if r.Intn(8) == 0 {
 		// a failing constant sub-expression under a double negation: the error must surface from Eval
